@@ -14,6 +14,8 @@ CONSTANTS
   D = 4
   NameFamily = "plain"
   NameImpl = "asis"
+  SampleImpl = "ref"
+  ForkImpl = "ref"
 INVARIANT C06_AsisIsRef
 INVARIANT C06_HardIsExport
 INVARIANT C06_Bounds
